@@ -98,6 +98,8 @@ func (d *dataRun) concretize(v map[string]interface{}) wireMsg {
 		m.meta = [][2]string{{"k", "v1" + d.rstr(2, alnum)}, {"other", "x"}, {"k", "v2"}}
 	case "emptyval":
 		m.meta = [][2]string{{"k", ""}, {"j", "v"}}
+	case "emptylast":
+		m.meta = [][2]string{{"a", "x" + d.rstr(3, alnum)}, {"flag", ""}}
 	case "special":
 		m.meta = [][2]string{{"k" + d.rstr(4, specials), d.rstr(10, specials+alnum) + "é世"}, {"a b", "c+d%e&f=g"}}
 	case "big":
@@ -278,6 +280,26 @@ func (d *dataRun) wireCase(c DataCase, out map[string]interface{}) {
 				diffs = append(diffs, fmt.Sprintf("f%d:%s", i, x))
 			}
 			usizes = append(usizes, m.Size())
+		}
+		// the same stream decoded into ONE message object, Reset between frames, that has received a primer
+		// frame before (every field set, three metadata pairs): nothing of an earlier frame may show
+		P := d.concretize(map[string]interface{}{"seq": "max", "mtype": "3", "method": "len255", "status": "full", "meta": "none", "codec": "p", "body": "b255", "pipe": "none"})
+		P.meta = [][2]string{{"p1", "primer-value-1"}, {"p2", "primer-value-2"}, {"p3", "primer-value-3"}}
+		rm := newRecvMsg()
+		var pw bytes.Buffer
+		if pm, err := P.build(); err == nil && pf(&rwBuf{r: bytes.NewReader(nil), w: &pw}).Pack(pm) == nil {
+			pf(&rwBuf{r: bytes.NewReader(pw.Bytes()), w: &bytes.Buffer{}}).Unpack(rm)
+		}
+		up2 := pf(&rwBuf{r: &chunkReader{b: append([]byte(nil), stream...), sizes: chunks}, w: &bytes.Buffer{}})
+		for i, wm := range msgs {
+			rm.Reset(socket.WithNewBody(func(socket.Header) interface{} { return new([]byte) }))
+			if err := up2.Unpack(rm); err != nil {
+				out["err"] = fmt.Sprintf("unpack frame %d into a reused message: %v", i, err)
+				return
+			}
+			for _, x := range wm.diff(rm) {
+				diffs = append(diffs, fmt.Sprintf("reused:f%d:%s", i, x))
+			}
 		}
 	} else {
 		prev := 0
